@@ -189,6 +189,13 @@ func c0708Worker(w *W) {
 			// one generator per case so that a case can be replayed by index
 			g := &fgen{r: newRng(w.Spec.Seed, uint64(w.Spec.Shard)*1_000_003+uint64(i)+77)}
 			ev := g.event()
+			if i%4 == 1 || i%4 == 2 {
+				// the same instant as the previous case's neighbour, shown in another zone; and the next
+				// millisecond of the same second: caches keyed by the second must not leak
+				base := time.Unix(int64(1_600_000_000+(i/4)*977), int64((i/4)%1000)*1e6)
+				zones := []*time.Location{time.UTC, time.FixedZone("a", 5*3600+1800), time.FixedZone("b", -8*3600), time.FixedZone("c", 13*3600)}
+				ev.Time = base.Add(time.Duration(i%4-1) * 7 * time.Millisecond).In(zones[(i/4+i)%4])
+			}
 			W := g.r.IntN(206) - 5
 			if g.r.IntN(4) == 0 {
 				W = []int{-5, -1, 0, 1, 2, 3, 4, 5, 48, 200}[g.r.IntN(10)]
